@@ -25,7 +25,7 @@ LEVEL = 'exploration'
 TECHNIQUE = 'bounded-exhaustive requested names x generated directory layouts on a real file system, containment oracle via unique file markers'
 
 SLOT_STATES = ['absent', 'file', 'link-out', 'link-in', 'dir']
-COMPONENTS = ['x', 'x.tex', 'sub', 'g', 'g.tex', 'lnkdir', 'up', '..', '.', 'in2', 'out', 'secret', 's']
+COMPONENTS = ['x', 'x.tex', 'sub', 'g', 'g.tex', 'lnkdir', 'up', '..', '.', 'in2', 'out', 'secret', 's', '..n', '..n.tex', '..d']
 BOUNDS = {'quick': dict(depth=2, depth_small=3), 'thorough': dict(depth=3, depth_small=3)}
 # symlinked directory followed by '..': the file system resolves the link first (lexical collapsing gives another path)
 EXTRA_NAMES = ['lnkdir/../in/x', 'lnkdir/../in/sub/g', 'lnkdir/../in2/s', 'lnkdir/../out/secret', 'sub/up/x', 'sub/up/sub/g',
@@ -51,6 +51,8 @@ def build_layout(root, slots):
     os.makedirs(os.path.join(root, 'in2'))
     os.makedirs(os.path.join(root, 'out'))
     mkfile('in/sub/g.tex')
+    mkfile('in/..n.tex')          # inside names that merely *begin* with two dots
+    mkfile('in/..d/g.tex')
     mkfile('in2/s.tex')
     mkfile('in2/x.tex')
     mkfile('out/secret.tex')
@@ -188,7 +190,13 @@ def run_layout(slots, tier, acc):
                 acc.violation(ID, 'fs', dict(slots=list(slots), base='non-strict', name=name.replace(root, '<root>')),
                               dict(kind='read_input_file-raises', exc=type(res).__name__ if st == 'exc' else None))
         loose.set_tex_input_directory(base, strict_input=True)
-        for obj, tag in ((loose, 'strict-after-non-strict:same-object'), (other, 'strict-after-non-strict:other-object')):
+        # re-configured without the argument: strict mode is the documented default of every call
+        loose2 = LatexNodes2Text()
+        loose2.set_tex_input_directory(os.path.join(root, 'in2'), strict_input=False)
+        loose2.read_input_file('../out/secret')
+        loose2.set_tex_input_directory(base)
+        for obj, tag in ((loose, 'strict-after-non-strict:same-object'), (other, 'strict-after-non-strict:other-object'),
+                         (loose2, 'default-after-non-strict:same-object')):
             for name in seqn:
                 check_name(obj, base, name, owners, acc, dict(slots=list(slots), base=tag, name=name.replace(root, '<root>')), via_l2t=False)
         # no directory configured: no file access at all
@@ -209,7 +217,7 @@ def plan(tier):
         shards=shards, bounds=dict(b, slot_states=SLOT_STATES, components=COMPONENTS, layouts=len(shards)),
         rule=('125 layouts (5 states for each of in/x, in/x.tex, in/x.latex) x fixtures (in/sub/g.tex, sibling in2/, outside out/, directory symlinks '
               'in/lnkdir -> ../out and in/sub/up -> .., file symlink out/back -> inside, base also reached through a symlink and with trailing slash / '
-              'dot-dot spelling, also dot-dot after a symlinked directory) x 10 names that pass through a symlinked directory and then dot-dot x every name of <= %d components over 13 components, 6 absolute spellings; read_input_file and (for the plain base) '
+              'dot-dot spelling, also dot-dot after a symlinked directory) x 10 names that pass through a symlinked directory and then dot-dot x every name of <= %d components over 16 components, 6 absolute spellings; read_input_file and (for the plain base) '
               'latex_to_text of \\input/\\include; a converter re-configured between directories; 8 names read without strict mode and then in strict mode (same and other object).  non-trivial = calls that returned file content.' % b['depth']),
         assumptions=['os.path.realpath of the marker owner decides containment; files are identified by unique content markers'],
     )
